@@ -219,6 +219,19 @@ CLAIMED = {
              "what the peer reads is validated by TLC against the reported results.",
         note="kernel TCP behaviour is the simulated socket layer (assumption); real loopback sockets are not used",
         design="5/C10"),
+    "C20": dict(
+        technique="abstract TLA+ pair model GemPair (both HSMS roles, link delay, T5 reconnect, disable/enable cycles) checked by TLC "
+                  "incl. the liveness property ReachCommunication + a real GemHostHandler and GemEquipmentHandler connected through "
+                  "the real TCP classes on a simulated socket layer in virtual time; sessions validated by TLC (PairJudge)",
+        text="TLC proves on the abstract pair that both sides eventually communicate whenever they stay enabled, for either role "
+             "assignment and after disable/enable cycles. Real host and equipment handlers run together under a deterministic "
+             "scheduler (fifo/random/PCT) over the real TcpClient/TcpServerConnection with 64 KiB and 64 B socket buffers, both role "
+             "assignments and enable orders, with a session of 22 host service calls, collection events and a remote command, and "
+             "disable/enable cycles of either side; time to reach communication, every returned value vs the equipment's tables "
+             "and the received events are validated by TLC.",
+        note="schedule space and session scripts are sampled; link latency zero (segmentation through small buffers); bound 60 "
+             "virtual seconds",
+        design="5/C20"),
 }
 
 NOT_YET = "check not built yet in this round (specification and harness in progress; see DESIGN.md section 9)"
